@@ -14,7 +14,7 @@ def engStep (s : St) : Op → St × Option (Option Bytes)
   | .batch ops => (batch s ops, none)
   | .get k => (s, some (get s k))
   | .flush => (flushMemTables s, none)
-  | .reopen => (reopen s, none)
+  | .reopen => (reopenC s, none)
 
 def engOutputs : St → List Op → List (Option Bytes)
   | _, [] => []
@@ -65,7 +65,7 @@ theorem step_inv {s : St} {hist : List MEntry} (h : EInv s hist) (o : Op) :
   | batch ops => exact batch_inv h ops
   | get k => exact h
   | flush => exact flushMemTables_inv h
-  | reopen => exact (reopen_inv h).1
+  | reopen => exact (reopenC_inv h).1
 
 theorem step_abs (s : St) (hist : List MEntry) (o : Op) :
     absOf (histStep s hist o) = (mapStep (absOf hist) o).1 := by
@@ -136,7 +136,7 @@ theorem step_frame {s : St} {hist : List MEntry} (h : EInv s hist) (o : Op) :
     · have := batch_frame s ops hne; simp only [engStep]; omega
   | get k => simp [engStep]
   | flush => have := flushMemTables_frame s; simp only [engStep]; omega
-  | reopen => have := (reopen_inv h).2; simp only [engStep]; omega
+  | reopen => have := (reopenC_inv h).2; simp only [engStep]; omega
 
 theorem stamps_inv : ∀ (ops : List Op) (s : St) (hist : List MEntry), EInv s hist →
     (stamps s ops).Pairwise (· < ·) ∧ ∀ n ∈ stamps s ops, s.lastSeq < n := by
